@@ -182,8 +182,38 @@ def analyse_loop(prog, fn, header, loop_blocks, sites):
                 vals = resolve_phi_header(q, edges, header, header_phis)
                 recs[q.id] = [x for x in vals if x is not q]
         calls = [c for c in b.calls if c.point[0] in blocks]
+        loops_back = bool(back)
+        # flag idiom: the path sets a loop-carried flag to a constant and the loop guard then leaves the loop
+        if back:
+            binds = {}
+            for q in other_phis:
+                vals = resolve_phi_header(q, edges, header, header_phis)
+                consts = {x.args[0] for x in vals if x.kind == 'const' and x.args[0] is not None and (x.ty in ('bool',) or isinstance(x.args[0], int))}
+                if vals and len(consts) == 1 and all(x.kind == 'const' for x in vals):
+                    c0 = consts.pop()
+                    binds[q.id] = bool(c0) if q.ty == 'bool' else c0
+            if binds:
+                ev2 = Evaluator(prog, sites, rel)
+                ev2.env = binds
+                blocks2, edges2, undec2 = region(b, ev2, header, header, loop_blocks)
+                exits_only = not any(h2 == header for (_, h2) in edges2) and not undec2 and not any(x in blocks2 for x in [s['call'].point[0] for s in sites])
+                if exits_only:
+                    # the loop is left right after this iteration: what is returned is what the carried variables hold now
+                    bound = {q.id: resolve_phi_header(q, edges, header, header_phis) for q in header_phis.values()}
+                    rets2 = []
+                    for rb in b.cfg.returns:
+                        if rb in blocks2:
+                            for rv in resolve_phi(b.ret_val[rb], edges2, header_phis):
+                                if rv.id in bound:
+                                    rets2.extend(bound[rv.id])
+                                else:
+                                    rets2.append(rv)
+                    rets = rets + rets2
+                    nexts = []
+                    recs = {}
+                    loops_back = False
         res['rels'][rel] = {'blocks': blocks, 'edges': edges, 'nexts': nexts, 'rets': rets, 'recs': recs,
-                            'calls': calls, 'loops_back': bool(back)}
+                            'calls': calls, 'loops_back': loops_back}
     return res
 
 
